@@ -131,6 +131,33 @@ func genC02(r *kit.RNG) *C01Scenario {
 				t.Zone = kit.Pick(r, zones)
 			}
 			switch t.Kind {
+			case "nodata-wildcard-no-next-closer":
+				// the tampered zone is an NSEC3 zone with a wildcard and, beside it, an existing
+				// name holding a type the wildcard lacks; that name and type are asked
+				t.Step = "answer"
+				for i := range sc.World.Zones {
+					z := &sc.World.Zones[i]
+					if dns.CanonicalName(z.Name) != dns.CanonicalName(t.Zone) || !z.Signed {
+						continue
+					}
+					z.NSEC3 = true
+					hasW, hasH := false, false
+					for _, rec := range z.Records {
+						hasW = hasW || strings.HasPrefix(rec, "*.w."+z.Name+" ")
+						hasH = hasH || strings.HasPrefix(rec, "host.w."+z.Name+" ")
+					}
+					if !hasW {
+						z.Records = append(z.Records, fmt.Sprintf("*.w.%s 60 IN A 192.0.2.%d", z.Name, r.Range(1, 250)))
+					}
+					if !hasH {
+						z.Records = append(z.Records, fmt.Sprintf("host.w.%s 300 IN TXT \"beside the wildcard\"", z.Name))
+					}
+					for j := range sc.Ops {
+						if j >= t.FromOp && r.Chance(0.5) {
+							sc.Ops[j].Name, sc.Ops[j].Qtype = "host.w."+z.Name, dns.TypeTXT
+						}
+					}
+				}
 			case "nx-for-existing", "nx-retired-salt", "nodata-for-existing", "forge-unsigned", "wildcard-replay", "wildcard-replay-other-nsec", "wildcard-replay-forged-nsec":
 				t.Step = "answer"
 			case "nx-below-delegation":
